@@ -58,6 +58,19 @@ RESULTS = {
     "C36-run-hooks-trivial-manual-decision-counts-as-progress": ("C36", [("C36", "quick", "not reported", "the changed branch only runs when a hook enters run_hooks with a pre-existing TRIVIAL decision; no code in this tree creates one (every decision is made and consumed inside one run_hooks call), so no reachable history violates the property -- the harness's liveness clause excludes exactly that start state (DESIGN.md 14.1), and the sub-agent's own demo had to pre-set `to_release` by hand")]),
     "C10-counted-hash-set-eq-ignores-counts": ("C10", [("C10", "quick", "missed", "first rounds: VariadicCountedHashSet is hashbrown-backed, outside CBMC's reach beyond one tuple; quick still misses it (the equality harness takes 5-9 min)"),
                                                        ("C10", "thorough", "VIOLATION", "kani vk_var (variadic_collections.rs extracted over a hashbrown contract double, added later) extracted::hash_harness::slow_counted_set_eq_is_multiset_equality clause C10:counted_set_equality_is_multiset_equality")]),
+    "C05-roaring-extend-append-fast-path-drops-tombstone": ("C05", [("C05", "quick", "missed", "first state: tombstone.rs's adapters were outside the C05 claim (the merge algorithms run over harness sets)"),
+                                                                     ("C05", "quick", "VIOLATION", "kani vk_tomb tombstone::harness::roaring_tombstones_extend_is_union_any_order (unit built because of this seed: RoaringTombstoneSet spliced over a RoaringTreemap contract double)")]),
+    "C05-fst-extend-duplicate-tombstone-toggles": ("C05", [("C05", "quick", "missed", "the change is inside FstTombstoneSet's Extend impl (fst crate), which the C05 claim names as NOT covered")]),
+    "C06-map-union-atomize-key-moved-into-final-atom": ("C06", [("C06", "quick", "VIOLATION", "kani vk_lat coll3::atomize_map_union_any_value_iterator clauses C06:map_union_atoms_are_exactly_key_times_value_atoms, C06:map_union_yields_every_value_atom_under_its_key")]),
+    "C06-with-bot-atomize-size-hint-early-out": ("C06", [("C06", "quick", "missed", "first run: no WithBot::atomize harness with a Some value was within CBMC's reach"),
+                                                         ("C06", "quick", "VIOLATION", "kani vk_lat coll3::atomize_with_bot_any_inner_iterator (added because of this seed) clause C06:with_bot_yields_every_inner_atom_and_nothing_iff_bottom")]),
+    "C07-keyed-bimorphism-smaller-side-break": ("C07", [("C07", "quick", "missed", "first run: KeyedBimorphism was only harnessed with one entry per side"),
+                                                        ("C07", "quick", "VIOLATION", "kani vk_lat coll3::keyed_bimorphism_multi_a3_b2_first_of_b_unmatched (added because of this seed) clause C07:keyed_bimorphism_keeps_exactly_the_common_keys")]),
+    "C07-ght-keyed-bimorphism-map-while": ("C07", [("C07", "quick", "missed", "the change is in ght/lattice.rs (GhtNodeKeyedBimorphism); GHT is outside both verifiers' reach (C08 N/A) and the C07 claim lists the ght bimorphisms as NOT covered")]),
+    "C10-counted-eq-same-keys-different-multiplicities": ("C10", [("C10", "quick", "missed", "counted-set equality is a thorough-tier obligation (minutes of CBMC)"),
+                                                                   ("C10", "thorough", "@C10A@", "kani vk_var hash_harness::slow_counted_set_eq_compares_multiplicities (added because of this seed: three inserts per side) clause C10:counted_set_equality_is_multiset_equality")]),
+    "C10-column-extend-len-from-size-hint": ("C10", [("C10", "quick", "missed", "first run: extend was only fed arrays (exact size_hint)"),
+                                                     ("C10", "quick", "VIOLATION", "kani vk_var harness::column_multiset_extend_any_size_hint (added because of this seed: havoc iterator) clause C10:extend_len_counts_every_item_whatever_size_hint_said")]),
 }
 EXTRA = '/verif/seeded/results_extra.json'
 if os.path.exists(EXTRA):
@@ -84,7 +97,7 @@ for sid, (prop, checks) in RESULTS.items():
         return m[-3:] if m else t[-200:]
     meta = {
         "breaks_property": prop,
-        "summary": am.get("summary", ""),
+        "summary": am.get("summary") or am.get("what_changed", ""),
         "needs_to_manifest": am.get("needs_to_manifest", ""),
         "origin": "independent sub-agent given only the property text and a scratch git worktree of /repo (nothing from /verif)",
         "confirmed_by_me": {
